@@ -61,7 +61,7 @@ func c05World(r *hx.Run) (*W, []c05Srv, map[string]*hx.MemStore) {
 				{Name: "lvbad", Levels: map[string]uint{"gzip": 99, "br": 99}},
 			},
 			Upstreams: []config.UpstreamConfig{{Name: "u", Servers: []config.UpstreamServerConfig{{Addr: origins[0]}}}},
-			Locations: []config.LocationConfig{{Name: "l", Upstream: "u"}},
+			Locations: []config.LocationConfig{{Name: "l", Upstream: "u"}, {Name: "lpt", Upstream: "u", Prefixes: []string{"/c05pt/"}, ProxyTimeout: "5s"}},
 		}
 		for i := range specs {
 			sp := &specs[i]
@@ -73,7 +73,7 @@ func c05World(r *hx.Run) (*W, []c05Srv, map[string]*hx.MemStore) {
 			}
 			sp.addr = srvAddr(ports[i])
 			cfg.Caches = append(cfg.Caches, cc)
-			cfg.Servers = append(cfg.Servers, config.ServerConfig{Addr: sp.addr, Locations: []string{"l"}, Cache: cc.Name,
+			cfg.Servers = append(cfg.Servers, config.ServerConfig{Addr: sp.addr, Locations: []string{"l", "lpt"}, Cache: cc.Name,
 				Compress: comps[sp.name], CompressMinLength: mins[sp.name], CompressContentTypeFilter: sp.filter})
 		}
 		return cfg
@@ -209,7 +209,8 @@ func c05(r *hx.Run) {
 	defer w.Farm.Close()
 	var cur c05Case
 	var skipped int64
-	w.Farm.SetScript(func(f *hx.Fetch) *hx.Reply {
+	var mainScript func(f *hx.Fetch) *hx.Reply
+	mainScript = func(f *hx.Fetch) *hx.Reply {
 		if strings.HasPrefix(f.URI, "/fill/") {
 			return &hx.Reply{Status: 200, Header: [][2]string{{"Cache-Control", "max-age=600"}}, Body: []byte("fill")}
 		}
@@ -242,7 +243,8 @@ func c05(r *hx.Run) {
 		}
 		h = append(h, c.Extra...)
 		return &hx.Reply{Status: c.Status, Header: h, Body: enc, Orig: orig, Encoding: c.Encoding}
-	})
+	}
+	w.Farm.SetScript(mainScript)
 	n := r.Pick(400, 12000)
 	type visited struct {
 		c c05Case
@@ -325,6 +327,14 @@ func c05(r *hx.Run) {
 			}
 			return ok
 		}
+		if c.Method == "GET" && i%6 == 5 {
+			// a HEAD for the same URL first (its own key): the GET must still get the whole body
+			hres := w.Cl.Do(hx.Req{Method: "HEAD", Addr: s.addr, Host: "c05.example", URI: c.URI})
+			if hres.Err != nil || len(hres.Raw) != 0 {
+				r.Violate("head_answer_wrong", nil, fmt.Sprintf("HEAD: err %v, %d body bytes", hres.Err, len(hres.Raw)), hres.Brief(), c)
+			}
+			r.Add("head_before_get", 1)
+		}
 		if !do("first", 3) {
 			continue
 		}
@@ -356,6 +366,8 @@ func c05(r *hx.Run) {
 			r.Sample(c)
 		}
 	}
+	c05Truncated(r, w, srvs, rnd)
+	w.Farm.SetScript(mainScript)
 	c05AliasStress(r, w, srvs, rnd, &cur)
 	r.Add("cases_where_reference_encoder_declined", skipped)
 	_ = stores
@@ -420,5 +432,44 @@ func c05AliasStress(r *hx.Run, w *W, srvs []c05Srv, rnd *rand.Rand, cur *c05Case
 			}
 		}
 		r.Add("alias_stress_rounds", 1)
+	}
+}
+
+// c05Truncated: the upstream connection dies in the middle of the body (with and without a proxy timeout
+// on the location): the partial body must never be delivered as a complete 200, let alone stored
+func c05Truncated(r *hx.Run, w *W, srvs []c05Srv, rnd *rand.Rand) {
+	n := r.Pick(20, 300)
+	for i := 0; i < n && !r.TooMany(); i++ {
+		s := srvs[rnd.Intn(len(srvs))]
+		prefix := "/c05tr/"
+		if i%2 == 0 {
+			prefix = "/c05pt/"
+		}
+		uri := fmt.Sprintf("%s%d", prefix, i)
+		size := []int{300, 5000, 70000}[rnd.Intn(3)]
+		w.Farm.SetScript(func(f *hx.Fetch) *hx.Reply {
+			body := hx.IdentBody(f, size, "text")
+			rep := &hx.Reply{Status: 200, Header: [][2]string{{"Content-Type", "text/plain"}, {"Cache-Control", "max-age=600"}}, Body: body}
+			if f.Nth == 1 {
+				rep.Truncate = true // announces len(body)+100 bytes, sends len(body), closes
+			}
+			return rep
+		})
+		first := w.Cl.Do(hx.Req{Addr: s.addr, Host: "c05.example", URI: uri, Header: http.Header{"Accept-Encoding": {"gzip"}}})
+		cs := map[string]interface{}{"uri": uri, "server": s.name, "proxy_timeout_on_location": i%2 == 0, "body_len": size}
+		r.Eval(1)
+		r.Add("truncated_upstream_bodies", 1)
+		if first.Err == nil && first.Status == 200 {
+			r.Violate("truncated_upstream_body_delivered_as_complete", map[string]string{"proxy_timeout": fmt.Sprint(i%2 == 0)}, fmt.Sprintf("the upstream closed the connection %d bytes short of its Content-Length, the client got a complete 200", 100), first.Brief(), cs)
+			continue
+		}
+		for k := 0; k < 2; k++ {
+			res := w.Cl.Do(hx.Req{Addr: s.addr, Host: "c05.example", URI: uri})
+			if res.Err != nil || res.Status != 200 || !res.HasIdent || !res.Ident.Intact || res.Ident.N != size {
+				r.Violate("body_altered", map[string]string{"path": "after_truncated_fetch"}, "after a fetch whose upstream body was cut short, the key is not served with the full body", res.Brief(), cs)
+				break
+			}
+		}
+		r.Distinct(fmt.Sprintf("truncated|%s|%v|%d", s.name, i%2 == 0, size))
 	}
 }
